@@ -12,7 +12,10 @@ use sourcemap::SourceView;
 use std::panic::{catch_unwind, AssertUnwindSafe};
 use std::sync::{Arc, Mutex};
 
-pub const MAX_STEPS: usize = 20_000;
+/// Upper bound on scheduling decisions in one run. The largest generated scenario (1100 lines,
+/// several tasks iterating all lines, plus the post-phase) needs about 60 000; anything near this
+/// bound is a livelock, not a long run.
+pub const MAX_STEPS: usize = 2_000_000;
 
 #[derive(Clone, Copy, Debug, PartialEq, Eq)]
 pub enum Phase {
